@@ -182,8 +182,15 @@ func evalC11(c c11Case, rec *hx.Rec) error {
 	for i := 0; i < n; i++ {
 		for j := i + 1; j < n; j++ {
 			same := vals[i] == vals[j]
-			if eq := hx.G.Equal(refs[i], refs[j]); eq != same {
-				return fmt.Errorf("slots %d,%d: equal as group elements=%v but equal map-to-field values=%v", i, j, eq, same)
+			eq := hx.G.Equal(refs[i], refs[j])
+			if eq && !same {
+				return fmt.Errorf("slots %d,%d hold the same group element but have different map-to-field values", i, j)
+			}
+			if !eq && same {
+				// x/y differs in the BASE field for distinct elements (what the property states); the reduction into the
+				// smaller scalar field may still collide (x/y = m*r maps to 0 like the identity) - every value was already
+				// compared with the reference above, so this is a property of the map, not of the code
+				rec.Label("distinct_elements_colliding_after_reduction")
 			}
 		}
 	}
@@ -235,6 +242,17 @@ func TestC11(t *testing.T) {
 	s := hx.Start(t, "C11")
 	defer s.Finish()
 	s.Guard(func() { Cfg() })
+	// constructed elements whose x/y is a small integer, lies just below / above a multiple of r, or just below p
+	for blk := 0; blk < 18; blk++ {
+		if hx.Sharded(blk) {
+			var h history
+			for j := 0; j < 6; j++ {
+				h.Acts = append(h.Acts, act{Op: "small_ratio", N: 50*blk + (7*j+hx.Seed()+hx.Shard())%50})
+			}
+			h.Acts = append(h.Acts, act{Op: "rescale", A: 2, Seed: 77}, act{Op: "flip", A: 3})
+			c11Part.EvalCase(s, c11Case{H: h, Batch: []int{2, 2, 3, 4, 0, 5, 2, 6, 7, 1, 8, 9}})
+		}
+	}
 	c11Part.Run(s, hx.PerShard(hx.Pick(40000, 800000)))
 	c11Part.RunConcurrent(s, 8, hx.Pick(250, 4000))
 }
